@@ -9,7 +9,7 @@ import H2V.Lemmas.CompState
                    (`Closed(Error | ErrorAfterEndStream)`, not a scheduled reset);
   * `rank`       : 0 = not reset, 1 = an RST_STREAM is owed (queued, or implicit reset scheduled),
                    2 = reset and nothing owed any more;
-  * `SRel a b`   : same key and id, `RInv` preserved, `rank` never decreases, a stream never
+  * `SRel D a b` : same key and id, (handle count not decreased unless `D key`), `RInv` preserved, `rank` never decreases, a stream never
                    returns to idle, a closed stream stays closed, and a recorded error cause can
                    only be replaced by a later RST_STREAM of the peer.
 -/
@@ -57,7 +57,7 @@ def causeStable (id : Nat) (a b : State) : Prop :=
   (∀ e, a.inner = .closed (.errorAfterEndStream e) →
       b.inner = .closed (.errorAfterEndStream e) ∨ ∃ r, b.inner = .closed (.errorAfterEndStream (.reset id r .remote)))
 
-structure SRel (a b : Stream) : Prop where
+structure SRel (D : Nat → Prop) (a b : Stream) : Prop where
   key : b.key = a.key
   id : b.id = a.id
   inv : RInv a → RInv b
@@ -65,6 +65,8 @@ structure SRel (a b : Stream) : Prop where
   nonIdle : a.state.isIdle = false → b.state.isIdle = false
   closed : a.state.isClosed = true → b.state.isClosed = true
   cause : causeStable a.id a.state b.state
+  /-- the handle count of an entry only goes down when a handle of that entry is dropped (`D key`) -/
+  refs : ¬ D a.key → a.refCount ≤ b.refCount
 
 theorem causeStable.rfl' (id : Nat) (a : State) : causeStable id a a :=
   ⟨fun _ h => .inl h, fun _ h => .inl h⟩
@@ -85,9 +87,12 @@ theorem causeStable.trans {id : Nat} {a b c : State} (h1 : causeStable id a b) (
       · exact .inr ⟨r, hc⟩
       · exact .inr ⟨r', hc⟩
 
-theorem SRel.of_coreEq {a b : Stream} (h : CoreEq a b) : SRel a b := by
-  have hs := h.state; have hp := h.pendingSend
-  refine ⟨h.key, h.id, fun i => ⟨?_, ?_⟩, fun _ => ?_, ?_, ?_, ?_⟩
+variable {D : Nat → Prop}
+
+/-- state and queue untouched -/
+theorem SRel.of_core4 {a b : Stream} (hk : b.key = a.key) (hi : b.id = a.id) (hs : b.state = a.state)
+    (hp : b.pendingSend = a.pendingSend) (hr : ¬ D a.key → a.refCount ≤ b.refCount) : SRel D a b := by
+  refine ⟨hk, hi, fun i => ⟨?_, ?_⟩, fun _ => ?_, ?_, ?_, ?_, hr⟩
   · rw [hp]; exact i.le
   · rw [hp, hs]; exact i.err
   · unfold rank; rw [hp, hs]; exact Nat.le_refl _
@@ -95,22 +100,39 @@ theorem SRel.of_coreEq {a b : Stream} (h : CoreEq a b) : SRel a b := by
   · rw [hs]; exact fun h => h
   · rw [hs]; exact causeStable.rfl' _ _
 
-instance : Good SRel RInv where
+theorem SRel.of_coreEq {a b : Stream} (h : CoreEq a b) : SRel D a b := by
+  have hs := h.state; have hp := h.pendingSend
+  refine ⟨h.key, h.id, fun i => ⟨?_, ?_⟩, fun _ => ?_, ?_, ?_, ?_, fun _ => Nat.le_of_eq h.refCount.symm⟩
+  · rw [hp]; exact i.le
+  · rw [hp, hs]; exact i.err
+  · unfold rank; rw [hp, hs]; exact Nat.le_refl _
+  · rw [hs]; exact fun h => h
+  · rw [hs]; exact fun h => h
+  · rw [hs]; exact causeStable.rfl' _ _
+
+instance : GoodRef (SRel D) RInv where
   trans := fun {a b c} h1 h2 =>
     ⟨h2.key.trans h1.key, h2.id.trans h1.id, fun i => h2.inv (h1.inv i),
      fun i => Nat.le_trans (h1.mono i) (h2.mono (h1.inv i)),
      fun h => h2.nonIdle (h1.nonIdle h), fun h => h2.closed (h1.closed h),
-     causeStable.trans h1.cause (by rw [← h1.id]; exact h2.cause)⟩
+     causeStable.trans h1.cause (by rw [← h1.id]; exact h2.cause),
+     fun hd => Nat.le_trans (h1.refs hd) (h2.refs (by rw [h1.key]; exact hd))⟩
   new := fun n h => h.inv n
   core := SRel.of_coreEq
   key := SRel.key
+  refInc := fun a => ⟨rfl, rfl, fun i => ⟨i.le, i.err⟩, fun _ => Nat.le_refl _, fun h => h, fun h => h,
+    causeStable.rfl' _ _, fun _ => Nat.le_succ _⟩
+
+/-- the relation with every drop allowed -/
+abbrev SRelAny := SRel (fun _ => True)
 
 -- ===================================================================== changes of the queue (state untouched)
 
 /-- any change of `pending_send` that does not add an RST_STREAM (pop, drop, clear, push of DATA…) -/
 theorem SRel.queue_le {a b : Stream} (hk : b.key = a.key) (hi : b.id = a.id) (hs : b.state = a.state)
-    (hq : resetCount b.pendingSend ≤ resetCount a.pendingSend) : SRel a b := by
-  refine ⟨hk, hi, fun i => ⟨Nat.le_trans hq i.le, fun h1 => ?_⟩, fun i => ?_, ?_, ?_, ?_⟩
+    (hrc : b.refCount = a.refCount)
+    (hq : resetCount b.pendingSend ≤ resetCount a.pendingSend) : SRel D a b := by
+  refine ⟨hk, hi, fun i => ⟨Nat.le_trans hq i.le, fun h1 => ?_⟩, fun i => ?_, ?_, ?_, ?_, fun _ => Nat.le_of_eq hrc.symm⟩
   · rw [hs]; exact i.err (by have := i.le; omega)
   · unfold rank; rw [hs]
     split
@@ -149,9 +171,10 @@ theorem facts_of_errorAES {x : State} {e : PErr} (h : x.inner = .closed (.errorA
 
 /-- a stream that was not reset is closed by an error and its queue rewritten in one step (`send_reset`):
     at most one RST_STREAM may be in the new queue -/
-theorem SRel.reset_atomic {a b : Stream} (hk : b.key = a.key) (hi : b.id = a.id)
-    (ha : a.state.isReset = false) (hb : isErr b.state = true) (hq : resetCount b.pendingSend ≤ 1) : SRel a b := by
-  refine ⟨hk, hi, fun _ => ⟨hq, fun _ => hb⟩, fun _ => ?_, fun _ => (isErr_closed hb).2, fun _ => (isErr_closed hb).1, ?_⟩
+theorem SRel.reset_atomic {a b : Stream} (hk : b.key = a.key) (hi : b.id = a.id) (hrc : b.refCount = a.refCount)
+    (ha : a.state.isReset = false) (hb : isErr b.state = true) (hq : resetCount b.pendingSend ≤ 1) : SRel D a b := by
+  refine ⟨hk, hi, fun _ => ⟨hq, fun _ => hb⟩, fun _ => ?_, fun _ => (isErr_closed hb).2, fun _ => (isErr_closed hb).1, ?_,
+    fun _ => Nat.le_of_eq hrc.symm⟩
   · unfold rank; rw [ha]; simp
   · constructor <;> intro e he
     · rw [(facts_of_error he).1] at ha; cases ha
@@ -176,7 +199,9 @@ inductive StateStep (id : Nat) (a : State) : State → Prop where
       StateStep id a ⟨.closed (if eos then .errorAfterEndStream (.reset id r .remote) else .error (.reset id r .remote))⟩
 
 theorem SRel.state_step {a b : Stream} (hk : b.key = a.key) (hi : b.id = a.id) (hq : b.pendingSend = a.pendingSend)
-    (hs : StateStep a.id a.state b.state) : SRel a b := by
+    (hrc : b.refCount = a.refCount)
+    (hs : StateStep a.id a.state b.state) : SRel D a b := by
+  have hrefs : ¬ D a.key → a.refCount ≤ b.refCount := fun _ => Nat.le_of_eq hrc.symm
   have hc0 : ∀ i : RInv a, a.state.isReset = false → resetCount a.pendingSend = 0 := by
     intro i hr
     have := i.le
@@ -191,12 +216,12 @@ theorem SRel.state_step {a b : Stream} (hk : b.key = a.key) (hi : b.id = a.id) (
     · have := i.err (by omega); unfold isErr at this; simp [hr] at this
   generalize hb : b.state = bs at hs
   cases hs with
-  | same => exact SRel.of_coreEq ⟨hk, hi, hb, hq⟩
+  | same => exact SRel.of_coreEq ⟨hk, hi, hb, hq, hrc⟩
   | normal h1 h2 h3 =>
     have hr : a.state.isReset = false := by
       revert h1; generalize a.state = x; intro h1
       rcases x with ⟨_ | _ | _ | _ | _ | _ | ⟨_ | _ | _ | _⟩⟩ <;> simp_all [State.isClosed, State.isReset]
-    refine ⟨hk, hi, fun i => ⟨by rw [hq]; exact i.le, fun h => ?_⟩, fun i => ?_, fun _ => ?_, fun h => ?_, ?_⟩
+    refine ⟨hk, hi, fun i => ⟨by rw [hq]; exact i.le, fun h => ?_⟩, fun i => ?_, fun _ => ?_, fun h => ?_, ?_, hrefs⟩
     · rw [hq, hc0 i hr] at h; cases h
     · unfold rank; rw [hr]; simp
     · rw [hb]; exact h3
@@ -207,7 +232,7 @@ theorem SRel.state_step {a b : Stream} (hk : b.key = a.key) (hi : b.id = a.id) (
   | error h1 h2 =>
     have hcl : bs.isClosed = true := (isErr_closed h2).1
     have hni : bs.isIdle = false := (isErr_closed h2).2
-    refine ⟨hk, hi, fun i => ⟨by rw [hq]; exact i.le, fun _ => by rw [hb]; exact h2⟩, fun i => ?_, fun _ => ?_, fun _ => ?_, ?_⟩
+    refine ⟨hk, hi, fun i => ⟨by rw [hq]; exact i.le, fun _ => by rw [hb]; exact h2⟩, fun i => ?_, fun _ => ?_, fun _ => ?_, ?_, hrefs⟩
     · unfold rank; rw [h1]; simp
     · rw [hb]; exact hni
     · rw [hb]; exact hcl
@@ -221,7 +246,7 @@ theorem SRel.state_step {a b : Stream} (hk : b.key = a.key) (hi : b.id = a.id) (
       revert h1; generalize a.state = x; intro h1
       rcases x with ⟨_ | _ | _ | _ | _ | _ | ⟨_ | _ | _ | _⟩⟩ <;>
         simp_all [State.isReset, State.isScheduledReset, State.getScheduledReset]
-    refine ⟨hk, hi, fun i => ⟨by rw [hq]; exact i.le, fun _ => by rw [hb]; exact h2⟩, fun i => ?_, fun _ => ?_, fun _ => ?_, ?_⟩
+    refine ⟨hk, hi, fun i => ⟨by rw [hq]; exact i.le, fun _ => by rw [hb]; exact h2⟩, fun i => ?_, fun _ => ?_, fun _ => ?_, ?_, hrefs⟩
     · unfold rank; rw [hb, hq, hc1 i h1, hra, h1]
       unfold isErr at h2; simp only [Bool.and_eq_true, Bool.not_eq_true'] at h2
       simp [h2.1, h2.2]
@@ -237,7 +262,7 @@ theorem SRel.state_step {a b : Stream} (hk : b.key = a.key) (hi : b.id = a.id) (
     have hb2 : bs.isClosed = true ∧ bs.isIdle = false := by
       revert h2; rcases bs with ⟨_ | _ | _ | _ | _ | _ | ⟨_ | _ | _ | _⟩⟩ <;>
         simp [State.isClosed, State.isIdle, State.isScheduledReset, State.getScheduledReset]
-    refine ⟨hk, hi, fun i => ⟨by rw [hq]; exact i.le, fun h => ?_⟩, fun i => ?_, fun _ => ?_, fun h => ?_, ?_⟩
+    refine ⟨hk, hi, fun i => ⟨by rw [hq]; exact i.le, fun h => ?_⟩, fun i => ?_, fun _ => ?_, fun h => ?_, ?_, hrefs⟩
     · rw [hq, hc0 i hr] at h; cases h
     · unfold rank; rw [hr]; simp
     · rw [hb]; exact hb2.2
@@ -250,7 +275,7 @@ theorem SRel.state_step {a b : Stream} (hk : b.key = a.key) (hi : b.id = a.id) (
     have hrb : b.state.isReset = true ∧ b.state.isScheduledReset = false := by
       unfold isErr at herr; simpa using herr
     refine ⟨hk, hi, fun i => ⟨by rw [hq]; exact i.le, fun _ => herr⟩, fun i => ?_,
-      fun _ => (isErr_closed herr).2, fun _ => (isErr_closed herr).1, ?_⟩
+      fun _ => (isErr_closed herr).2, fun _ => (isErr_closed herr).1, ?_, hrefs⟩
     · unfold rank; rw [h1, hq, hrb.1, hrb.2]
       simp only [if_true, Bool.false_or]
       by_cases hs : a.state.isScheduledReset = true
